@@ -10,7 +10,7 @@ pub fn prop() -> Prop {
         id: "C17",
         level: "model_checking",
         rule: "streams of <=3 (thorough <=4) values over a 7-value core (incl. multi-line values and a multi-byte string) x 7 separator kinds (space, LF, CRLF, mixed run, touching, LF+indent, CR alone - which is white space but no line break), clean and with whitespace-delimited noise in one gap (7 tokens, three of them not valid UTF-8); deliveries: whole, 1-byte, greedy reads cut at EVERY set of <=2 offsets, Interrupted before every offset (singly and all at once), one file, FIFO with 3/7-byte writes; file partitions (file names not in sorted order; the same file twice): EVERY composition of the value sequence into 1..4 files and EVERY cut inside the text (a value cut by a file boundary); --only-objects-and-arrays on/off; plus 7 tokens (number, multi-byte string, literal, escapes, containers) placed so that they straddle byte 8192 and 16384 of the input at every split position, read byte by byte, from a file and in 1 KiB/4 KiB/8 KiB chunks; 300 and 1100 values one per line (LF, CRLF) and all on one line (indices, lines and columns beyond 255 / 65535) and spread over 10 files, one of them empty; non-trivial = >=2 values or a cut inside a value; distinct by construction; directory arguments: 6 layouts (two files, plain files around a directory, nested directories with an empty file, two directories, one file, noisy files) x --only-objects-and-arrays, checked per file because the order inside a directory is the file system's",
-        explanation: "(a) every delivery must give the byte-identical observation; (b) out(f1..fn) = out(f1)...out(fn) with all per-file selectors; (c) the seven &-selectors are compared with a location model on the input text: &index ordinal of processed values, &index-in-file per file, &file-name the path, [start,end) as byte offsets must contain the value's span from the strict reference reader, consecutive ranges contiguous on clean streams, lines counted by LF only",
+        explanation: "(a) every delivery must give the byte-identical observation; (b) out(f1..fn) = out(f1)...out(fn) with all per-file selectors; (c) the seven &-selectors are compared with a location model on the input text: &index ordinal of processed values, &index-in-file per file, &file-name the path, [start,end) as byte offsets must contain the value's span from the strict reference reader, consecutive ranges contiguous on clean streams, lines counted by LF only; every third command line reads the selectors through --set macros",
         assumptions: COMMON_ASSUMPTIONS.to_vec(),
         guards: vec!["line-feed-inside-a-string", "noise-that-is-not-valid-utf8", "directory-argument", "same-file-twice", "index-line-column-beyond-255", "token-straddles-a-buffer-boundary", "touching-values", "multi-line-value", "cut-inside-value", "greedy-chunking", "file-boundary-inside-value", "ooa-skips-scalar", "crlf", "fifo"],
         budget_s: (100, 1800),
@@ -45,6 +45,29 @@ fn args_ctx(ooa: bool, with_index: bool, with_file: bool, policy: &str) -> Vec<S
     a.push("--select=.=v".into());
     if ooa {
         a.push("--only-objects-and-arrays".into());
+    }
+    // every third command line reads the input context through --set macros only (no & in any --select text):
+    // the selectors mean the same wherever they are written
+    thread_local! {
+        static CALLS: std::cell::Cell<usize> = const { std::cell::Cell::new(0) };
+    }
+    let n = CALLS.with(|c| {
+        c.set(c.get() + 1);
+        c.get()
+    });
+    if n % 3 == 0 {
+        let mut b: Vec<String> = Vec::new();
+        for x in &a {
+            match x.strip_prefix("--select=&") {
+                Some(rest) => {
+                    let (sel, name) = rest.split_once('=').unwrap_or((rest, rest));
+                    b.push(format!("--set=@ctx-{name}=&{sel}"));
+                    b.push(format!("--select=@ctx-{name}={name}"));
+                }
+                None => b.push(x.clone()),
+            }
+        }
+        return b;
     }
     a
 }
